@@ -79,7 +79,6 @@ Invalid == /\ Ev("invalid")
 Final == /\ Ev("final")
          /\ ~fin /\ FileDone /\ ck # "due"
          /\ Len(buf) <= TailMin /\ Len(buf) < MB                      \* DropTail, or the tail was consumed
-         /\ (inval > 0 => invseen)
          /\ IF nb = 0 THEN Trace[l].table = <<>> ELSE IsMedianTable(Trace[l].table)
          /\ fin' = TRUE
          /\ UNCHANGED <<lineno, buf, nb, trip, inval, ck, invseen>>
